@@ -1,5 +1,7 @@
 import Spine.TeardownKeys
 import Spine.TeardownKeysAgree
+import Spine.TeardownKeysAgreeEnt
+import Spine.TeardownKeysInterleave
 /-!
 # C10 — the all-and-only clauses as a FRAME theorem over identity keys, the removal events, the resolution
 
@@ -162,6 +164,75 @@ theorem c10k_agrees_with_registry_model (F : Facts) (hF : F.ok = true) (s : St) 
 example : ((abs w0).subs.map fun e => (e.peer, e.cEnt, e.cFeat)) = [(1, [1], 1), (2, [1], 1), (1, [1, 1], 1)] ∧
     (abs (drop Facts.pinned w0 1).1).binds ≠ (Reg.removePeer Reg.Cfg.clean (abs w0) 1).binds ∧
     (abs (drop Facts.pinned w0 1).1).binds = (Reg.removePeer {} (abs w0) 1).binds := by decide
+
+/-- Cross-model agreement, ENTITY removal (the device half is the theorem above): in every state of the invariant, for
+    every choice of comparisons that names peer and entity, and for EVERY connection and entity address ([0], unknown
+    entities, unknown connections included), one removal entry of the key model projects to `Reg.removeEntity` of the
+    repaired one-number model — subscriptions, bindings, and the known entities of every peer. -/
+theorem c10k_entity_agrees_with_registry_model (F : Facts) (hF : F.ok = true) (s : St) (hs : Inv s) (k : Nat) (ent : List Nat) :
+    (abs (dropEntity F s k ent).1).subs = (Reg.removeEntity Reg.Cfg.clean (abs s) k ent).subs ∧
+    (abs (dropEntity F s k ent).1).binds = (Reg.removeEntity Reg.Cfg.clean (abs s) k ent).binds ∧
+    (∀ q, (abs (dropEntity F s k ent).1).bare q = (Reg.removeEntity Reg.Cfg.clean (abs s) k ent).bare q) :=
+  dropEntity_agrees_reg F hF s hs k ent
+
+/-- non-vacuity: the removal of [1] of connection 1 in the example world takes one subscription and one binding on both
+    sides and leaves [0], [1,1] known; the pinned comparisons do NOT project to the repaired registry model -/
+example : ((Reg.removeEntity Reg.Cfg.clean (abs w0) 1 [1]).subs.map fun e => (e.peer, e.cEnt)) = [(2, [1]), (1, [1, 1])] ∧
+    ((Reg.removeEntity Reg.Cfg.clean (abs w0) 1 [1]).binds.map fun e => (e.peer, e.cEnt)) = [(2, [1])] ∧
+    (Reg.removeEntity Reg.Cfg.clean (abs w0) 1 [1]).bare 1 = [[0], [1, 1]] ∧
+    (abs (dropEntity Facts.head w0 1 [1]).1).bare 1 = [[0], [1, 1]] ∧
+    (abs (dropEntity Facts.pinned w0 1 [1]).1).binds ≠ (Reg.removeEntity Reg.Cfg.clean (abs w0) 1 [1]).binds := by decide
+
+/-! ## the connection removed WHILE its own entity-removed notification is processed -/
+
+/-- The removal entry about entity `ent` of connection `k` (steps: the entity leaves the device object's list; the
+    subscription pass, the binding pass, the bookkeeping clean-up for that entity) and the teardown of the SAME connection
+    (steps: the per-device subscription passes and binding passes — which walk the device object's CURRENT entity list, so
+    they no longer visit an entity that has already left it —, the delete from the map of connected devices, the bookkeeping
+    clean-up for the device) executed in ANY order — every interleaving of the two sequences, indeed every permutation of the
+    eight steps — end in the state of the sequential teardown: everything that refers to the device is gone, nothing else.
+    For every `Facts` with `Facts.ok` and every state of the invariant. -/
+theorem c10k_entity_pass_device_teardown_commute (F : Facts) (hF : F.ok = true) (s : St) (hs : Inv s) (k : Nat) (c : Conn)
+    (hk : forSki s k = some c) (ent : List Nat) (h0 : ent ≠ [0]) (hent : c.ents.contains ent = true)
+    (l : List MStep) (hnd : l.Nodup) (hall : ∀ a, a ∈ l) :
+    mrun F c ent l s = (drop F (dropEntity F s k ent).1 k).1 ∧
+    (drop F (dropEntity F s k ent).1 k).1.subs = s.subs.filter (fun e => e.cl.ski != k) ∧
+    (drop F (dropEntity F s k ent).1 k).1.binds = s.binds.filter (fun e => e.cl.ski != k) := by
+  refine ⟨interleaving_ends_sequential F hF s hs k c hk ent h0 hent l hnd hall, ?_, ?_⟩
+  · have h0' : (ent == [0]) = false := by simpa using h0
+    have exE := dropEntity_exact F hF s hs k c hk ent h0 hent
+    have exD := drop_exact F hF _ (inv_dropEntity F hF s hs k ent) k _ (forSki_dropEntity_self F s k c hk ent h0' hent)
+    rw [exD.1, exE.1, List.filter_filter]
+    apply filter_congr_mem; intro e _; by_cases he : e.cl.ski = k <;> simp [he]
+  · have h0' : (ent == [0]) = false := by simpa using h0
+    have exE := dropEntity_exact F hF s hs k c hk ent h0 hent
+    have exD := drop_exact F hF _ (inv_dropEntity F hF s hs k ent) k _ (forSki_dropEntity_self F s k c hk ent h0' hent)
+    rw [exD.2.1, exE.2.1, List.filter_filter]
+    apply filter_congr_mem; intro e _; by_cases he : e.cl.ski = k <;> simp [he]
+
+/-- the interleaving "entity unlisted, then the whole device teardown, then the entity's clean-up" -/
+def sched0 : List MStep := [.unlist, .subsD, .bindsD, .mapDel, .cachesD, .subsE, .bindsE, .cachesE]
+
+/-- non-vacuity: the schedule is admissible; in the example world (connection 1 subscribed and bound from [1], subscribed
+    from [1,1]; connection 2 with identical numbering) it leaves exactly connection 2's entries, bookkeeping and connection —
+    the device passes, run after [1] left the list, removed only the subscription from [1,1]: the rest went with the entity's
+    unconditional passes -/
+example : sched0.Nodup ∧ (∀ a, a ∈ sched0) ∧
+    ((mrun Facts.head ⟨1, 101, [[0], [1], [1, 1]]⟩ [1] sched0 w0).subs.map fun e => (e.id, e.cl.ski)) = [(2, 2)] ∧
+    ((mrun Facts.head ⟨1, 101, [[0], [1], [1, 1]]⟩ [1] sched0 w0).binds.map fun e => (e.id, e.cl.ski)) = [(2, 2)] ∧
+    (mrun Facts.head ⟨1, 101, [[0], [1], [1, 1]]⟩ [1] sched0 w0).csubs = [⟨102, [1], 3⟩] ∧
+    ((mrun Facts.head ⟨1, 101, [[0], [1], [1, 1]]⟩ [1] (sched0.take 5) w0).subs.map fun e => (e.id, e.cl.ski)) = [(1, 1), (2, 2)] := by
+  refine ⟨by decide, ?_, by decide, by decide, by decide, by decide⟩
+  intro a; cases a <;> decide
+
+/-- REFUTED for a removal branch that returns early once the device has left the map of connected devices ("the connection
+    was closed meanwhile, RemoveRemoteDevice already removed everything"): in the same interleaving the subscription and the
+    binding of connection 1 from the removed entity [1] STAY — registered for a device that no longer exists, the bound
+    server feature blocked for everybody else. The entity's passes must be unconditional. -/
+theorem c10k_guarded_entity_pass_refuted :
+    ((mrunG Facts.head ⟨1, 101, [[0], [1], [1, 1]]⟩ [1] sched0 w0).subs.map fun e => (e.id, e.cl.ski)) = [(1, 1), (2, 2)] ∧
+    ((mrunG Facts.head ⟨1, 101, [[0], [1], [1, 1]]⟩ [1] sched0 w0).binds.map fun e => (e.id, e.cl.ski)) = [(1, 1), (2, 2)] ∧
+    (forSki (mrunG Facts.head ⟨1, 101, [[0], [1], [1, 1]]⟩ [1] sched0 w0) 1).isNone = true := by decide
 
 /-! ## what the comparisons must provide -/
 
